@@ -707,7 +707,9 @@ func RunGateCase(e *Engine) {
 				e.Check(false)
 			}
 		case "closed":
-			if r.Chance(60) {
+			if r.Chance(12) {
+				e.failedOpenProbe()
+			} else if r.Chance(60) {
 				e.closedProbe()
 			} else {
 				e.rec(Op{K: "open"})
@@ -791,6 +793,51 @@ func (e *Engine) gateProbe(state string) {
 		return
 	}
 	e.checkChain("after WO gate probes")
+}
+
+// failedOpenProbe: an open that fails leaves the replica closed. The last step
+// of every open rewrites volume.meta through volume.meta.tmp; a directory placed
+// at that name makes exactly that step fail. The request must report the
+// failure, the replica must then still be closed (no I/O served, no mode
+// accepted), and once the obstacle is gone an ordinary open must succeed.
+func (e *Engine) failedOpenProbe() {
+	block := filepath.Join(e.Dir, "volume.meta.tmp")
+	if err := os.Mkdir(block, 0700); err != nil {
+		return
+	}
+	e.rec(Op{K: "gate", Arg: "open-with-failing-last-step", Note: "closed"})
+	err := e.Srv.Open()
+	os.Remove(block)
+	e.Res.Count("gate_probes_failed_open", 1)
+	if err == nil {
+		// nothing failed (the layout of the open path changed): an ordinary open then; back to closed for the walk
+		e.Res.Count("gate_probes_failed_open_without_failure", 1)
+		if cerr := e.Srv.Close(); cerr != nil {
+			e.Fail("C17", "close:error", cerr.Error())
+		}
+		return
+	}
+	if st, _ := e.Srv.Status(); st != "closed" {
+		e.Fail("C17", "gate:failed-open-left-replica-"+string(st), fmt.Sprintf("Open() returned %q, yet the replica reports state %q instead of closed", err.Error(), st))
+		return
+	}
+	buf := make([]byte, Block)
+	if _, rerr := e.Srv.ReadAt(buf, 0); rerr == nil {
+		e.Fail("C17", "gate:read:accepted-when-closed", "a read was served after Open() had failed")
+		return
+	}
+	if merr := e.Srv.SetReplicaMode("RW"); merr == nil {
+		e.Fail("C17", "gate:setreplicamode:accepted-when-closed", "a mode was accepted after Open() had failed")
+		return
+	}
+	// the refused open must not stand in the way of the next one
+	if oerr := e.Srv.Open(); oerr != nil {
+		e.Fail("C17", "gate:open-refused-after-failed-open", fmt.Sprintf("after a failed Open() (%v) the next Open() is refused: %v", err, oerr))
+		return
+	}
+	if cerr := e.Srv.Close(); cerr != nil {
+		e.Fail("C17", "close:error", cerr.Error())
+	}
 }
 
 func (e *Engine) closedProbe() {
